@@ -375,7 +375,7 @@ def run(ctx):
         by_dir = {d: p for p, d in zip(projs, dirs)}
         hit = [m for m in bad if m["expect"] is None and m["impl"] == "err:MissingForeignKey" and nested_arg_under_null_target(by_dir[m["project"]])]
         if hit:
-            core.known_finding(ctx, known[0], known[0].get("what", "C06-nested-arg-locale") + " (%d generated projects)" % len(hit))
+            core.known_finding(ctx, known[0], known[0].get("line", "C06-nested-arg-locale") + " (%d generated projects)" % len(hit))
             bad = [m for m in bad if m not in hit]
     unm = sum(1 for c in codes if c == 1)
     if bad or panics:
